@@ -7,7 +7,7 @@
    width / length-form choice explicit, ser, decoder spec_dec), C10.CborConv (go_of: the Go
    value carrying given data; lib_supports: documented limits; tdepth; tree_of). *)
 From Coq Require Import List NArith ZArith Lia Bool.
-From Verif Require Import Base.Outcome Wire.Item Gen.Consts Wire.CborFloat Wire.Cbor C10.CborSpec C10.CborConv Wire.CborProofs Wire.CborDepth Wire.CborTotal Wire.CborDepthErr.
+From Verif Require Import Base.Outcome Wire.Item Gen.Consts Wire.CborFloat Wire.Cbor C10.CborSpec C10.CborConv Wire.CborProofs Wire.CborEnc Wire.CborDepth Wire.CborTotal Wire.CborDepthErr.
 Import ListNotations.
 Open Scope N_scope.
 
@@ -31,31 +31,42 @@ Theorem C10_cbor_spec_consistent : forall (t : wtree) (rest : list N),
 Proof. exact spec_consistent_lemma. Qed.
 Print Assumptions C10_cbor_spec_consistent.
 
-(* OUT (partial: OptimumSize = false, items other than ITime / IExt): every encoding the library
-   produces is exactly one well-formed item for the RFC 8949 decoder, carrying the item's data
-   [sdata_of O i] (read off the item alone), with no trailing bytes; for every IndefiniteLength /
-   StringToRaw / TimeRFC3339 setting.  Missing: OptimumSize float narrowing (enc_f32/enc_f64 with
-   eo_optsize) and times, which are covered by the correspondence and by the reference decoder
-   oracle of harness/cmd/wirecbor only. *)
-Theorem C10_cbor_out_partial : forall (O : eopts) (i : item),
-  eo_optsize O = false -> wf i -> plain i ->
-  spec_dec (spec_fuel (enc O i)) (enc O i) = Some (sdata_of O i, []).
+(* OUT: every encoding the library produces - for every option vector (IndefiniteLength, StringToRaw,
+   TimeRFC3339, OptimumSize) and every item but a RawExt carrying raw Data (C10_cbor_ext) - is exactly
+   one well-formed item for the RFC 8949 decoder, with no trailing bytes, carrying the item's data
+   [sdata_of O i] (read off the item alone); floats are compared as values (fnorm: a half or single
+   denotes the double it widens to), which is what OptimumSize narrowing preserves.
+   For ITime the data is: null for the zero time; tag 0 + the RFC 3339 text; tag 1 + the epoch seconds of
+   the instant rounded to the microsecond.  Not proved here: that fmt_rfc3339 is the RFC 3339 rendering
+   and that the tag-1 float denotes the instant to the microsecond (both tied by the correspondence and
+   checked by the reference-decoder oracle of harness/cmd/wirecbor). *)
+Theorem C10_cbor_out : forall (O : eopts) (i : item), wf i -> plain i ->
+  exists d, spec_dec (spec_fuel (enc O i)) (enc O i) = Some (d, []) /\ fnorm d = fnorm (sdata_of O i).
 Proof. exact cbor_out_lemma. Qed.
-Print Assumptions C10_cbor_out_partial.
+Print Assumptions C10_cbor_out.
 
 (* the encoder emits one of the well-formed serialisations (its form choices are tree_of) *)
 Theorem C10_cbor_enc_wellformed : forall (O : eopts) (i : item),
-  eo_optsize O = false -> wf i -> plain i -> enc O i = ser (tree_of O i) /\ twf (tree_of O i).
+  wf i -> plain i -> enc O i = ser (tree_of O i) /\ twf (tree_of O i).
 Proof. exact enc_wellformed_lemma. Qed.
 Print Assumptions C10_cbor_enc_wellformed.
 
-(* dec_enc (partial as above): decoding what the encoder wrote gives [norm O D i] =
-   go_of D (sdata_of O i): non-negative integers come back unsigned unless SignedInteger, float32
-   widened, StringToRaw strings as bytes (or strings again under RawToString), []byte map keys as
-   strings, kept tags as ITag / dropped under SkipUnexpectedTags *)
+(* a RawExt carrying Data is the tag followed by Data verbatim: well-formed exactly when Data is *)
+Theorem C10_cbor_ext : forall (O : eopts) (t : N) (t' : wtree),
+  t < 18446744073709551616 -> enc O (IExt t (ser t')) = ser (TTag (minw t) t t').
+Proof. exact ext_lemma. Qed.
+Print Assumptions C10_cbor_ext.
+
+(* dec_enc: decoding what the encoder wrote (any options, OptimumSize included) gives [norm O D i] =
+   go_of D (sdata_of O i): non-negative integers come back unsigned unless SignedInteger, floats as the
+   double of the same value, StringToRaw strings as bytes (or strings again under RawToString), []byte map
+   keys as strings, kept tags as ITag / dropped under SkipUnexpectedTags.
+   Partial: [lib_supports D (tree_of O i)] excludes tags 0..5, hence non-zero ITime (the zero time is
+   covered: nil).  What remains for times is float / calendar arithmetic: time_of_float (f64_add ...) and
+   parse_rfc3339 (fmt_rfc3339 ...) returning the microsecond-rounded instant; covered by the enc stream's
+   round-trip oracle and the correspondence only. *)
 Theorem Wcbor_dec_enc_partial : forall (O : eopts) (D : dopts) (i : item) (rest : list N),
-  eo_optsize O = false -> wf i -> plain i ->
-  lib_supports D (tree_of O i) -> (tdepth D (tree_of O i) < maxdepth D)%Z ->
+  wf i -> plain i -> lib_supports D (tree_of O i) -> (tdepth D (tree_of O i) < maxdepth D)%Z ->
   dec_naked D (fuel_for (enc O i ++ rest)) (enc O i ++ rest) = Ok (norm O D i, rest).
 Proof. exact dec_enc_lemma. Qed.
 Print Assumptions Wcbor_dec_enc_partial.
@@ -70,12 +81,13 @@ Theorem Wcbor_skip_wellformed : forall (D : dopts) (t : wtree) (d : Z) (rest : l
 Proof. exact skip_ser_lemma. Qed.
 Print Assumptions Wcbor_skip_wellformed.
 
-(* skip_enc (partial as C10_cbor_out_partial): skipping what the encoder wrote consumes exactly it *)
-Theorem Wcbor_skip_enc_partial : forall (O : eopts) (D : dopts) (i : item) (d : Z) (rest : list N),
-  eo_optsize O = false -> wf i -> plain i -> (d + sdepth (tree_of O i) < maxdepth D)%Z ->
+(* skip_enc: skipping what the encoder wrote - any item but raw-Data RawExt, any options, times and
+   narrowed floats included - consumes exactly it *)
+Theorem Wcbor_skip_enc : forall (O : eopts) (D : dopts) (i : item) (d : Z) (rest : list N),
+  wf i -> plain i -> (d + sdepth (tree_of O i) < maxdepth D)%Z ->
   skip D (fuel_for (enc O i ++ rest)) d (enc O i ++ rest) = Ok rest.
 Proof. exact skip_enc_lemma. Qed.
-Print Assumptions Wcbor_skip_enc_partial.
+Print Assumptions Wcbor_skip_enc.
 
 (* dec_depth, second half (full): for EVERY byte string, every option vector and every fuel, the
    recursion level the decode-into-interface{} model reaches (instrumented exactly where the code
@@ -167,15 +179,19 @@ Proof.
 Qed.
 
 Example C10_cbor_out_nonvacuous :
-  let O := mkeo true false false false in
-  let i := IArr [IInt (-500); IStr [104; 105]; IMap [(IUint 1, IF64 4609434218613702656)]; ITag 32 INil] in
-  wf i /\ plain i /\ enc O i = [159; 57; 1; 243; 127; 98; 104; 105; 255; 191; 1; 251; 63; 248; 0; 0; 0; 0; 0; 0; 255; 216; 32; 246; 255]
+  let O := mkeo true false false true in
+  let i := IArr [IInt (-500); IStr [104; 105]; IMap [(IUint 1, IF64 4609434218613702656)]; ITag 32 INil; ITime 1 500000000; IF32 1078530011] in
+  wf i /\ plain i /\
+  enc O i = [159; 57; 1; 243; 127; 98; 104; 105; 255; 191; 1; 249; 62; 0; 255; 216; 32; 246; 193; 249; 62; 0; 250; 64; 73; 15; 219; 255]
   /\ spec_dec (spec_fuel (enc O i)) (enc O i)
-     = Some (DArr [DNint 499; DText [104; 105]; DMap [(DUint 1, DFloat 64 4609434218613702656)]; DTag 32 (DSimple 22)], []).
+     = Some (DArr [DNint 499; DText [104; 105]; DMap [(DUint 1, DFloat 16 15872)]; DTag 32 (DSimple 22);
+                   DTag 1 (DFloat 16 15872); DFloat 32 1078530011], [])
+  /\ fnorm (DFloat 16 15872) = fnorm (sdata_of O (IF64 4609434218613702656)).
 Proof.
-  cbv zeta. split; [| split; [| split]].
+  cbv zeta. split; [| split; [| split; [| split]]].
   - cbn. repeat (apply conj || apply Forall_cons || apply Forall_nil || lia || exact I).
   - cbn. repeat (apply conj || lia || exact I).
+  - vm_compute. reflexivity.
   - vm_compute. reflexivity.
   - vm_compute. reflexivity.
 Qed.
